@@ -31,6 +31,8 @@ func Keys[M ~map[K]V, K comparable, V any](m M) []K {
 				moved = true
 			}
 		}
+	} else {
+		mapIdentity(len(kk) - 1)
 	}
 	noteRange(moved)
 	return kk
@@ -51,6 +53,23 @@ func permActive() bool {
 
 //go:norace
 func mapChoice(n int) int { return R.tape.choose(KMap, n) }
+
+// mapIdentity records n "leave in place" decisions for a range that is not permuted
+// in an exploring run: a replay consumes one decision per step at EVERY range (it
+// cannot know which operations had the permutation switched on), so the recorded
+// stream has to have one for every step too - otherwise the decisions of a later,
+// permuted range are applied to an earlier one (met with seeded change c09r, whose
+// violation "did not recur alone").
+//
+//go:norace
+func mapIdentity(n int) {
+	if !R.active || R.quiet != 0 || R.tape.S[KMap].Replay {
+		return
+	}
+	for i := 0; i < n; i++ {
+		R.tape.chooseWith(KMap, 2, 0)
+	}
+}
 
 //go:norace
 func noteRange(moved bool) {
